@@ -615,6 +615,11 @@ class DataType(object):
                 # This happens if the colon ':' is used as separator
                 group_separator = ':'
 
+        if group_separator in '\\|.?*+(){}[]-^':
+            # The separator is a special character in XML schema regular
+            # expressions, while we want it to match literally.
+            group_separator = '\\' + group_separator
+
         if num_groups == 0:
             # zero groups means empty string. Empty strings
             # are not valid in EDXML.
